@@ -161,6 +161,7 @@ def run_case(case, B, msgb, keep=False, debug=False, dump=False):
                     res['closed_after'] = time.time() - t_done
                     break
                 time.sleep(0.02)
+            res['open_at_end'] = res['closed_after'] is None
             res['probe_pid'] = probe_daemon(sock_path, msgb)
     finally:
         for p, ce, lg in procs:
